@@ -253,7 +253,15 @@ package utils
 //   one-to-one  on(L): only L is kept;  ignoring(L): L is dropped, the rest is kept;
 //   group_left / group_right(I): the labels of the "many" side plus I (and, with on(L), L) are possible;
 //   and / or / unless: the left (for `or` also the right) side's labels are kept as they are.
-// Asserted for every source where it is appended to the result; guaranteed labels never grow.
+// Asserted for every source where it is appended to the result; guaranteed labels never grow. Join feasibility
+// (canJoin) is judged on the operand as analysed, not on the source whose labels were already rewritten for the
+// result (with on(L) the labels of L are force-included there, which made every on() label "possible").
+// group_left(I) / group_right(I): a label of I stays guaranteed only if every source of the "one" side guarantees it
+// (contract of unguaranteeCopiedLabels, called with exactly the one side's sources and I; the guaranteed list it
+// returns is the one the emitted source carries - that the arrays involved are not written in between is not proved).
+// Static folding of a comparison between two known numbers may only declare it dead when the comparison filters,
+// i.e. not with the `bool` modifier (KNOWN FINDING: it does - the existing tests pin `0 > bool 0` as dead code).
+//@ spec func isCmp(op promParser.ItemType) bool = op == promParser.EQLC || op == promParser.NEQ || op == promParser.LTE || op == promParser.LSS || op == promParser.GTE || op == promParser.GTR
 //@ spec func vmSep(s Source, vm *promParser.VectorMatching) bool = sepS(s, vm.MatchingLabels) && sepS(s, vm.Include)
 //@ func parseBinOps [C04,C12]
 //@   option elemlinks split
@@ -262,10 +270,20 @@ package utils
 //@   ghost r6 []Source
 //@   ghost r8 []Source
 //@   ghost r10 []Source
+//@   ghost g6 []string
+//@   ghost g8 []string
+//@   after call unguaranteeCopiedLabels#1 set g6 = result.GuaranteedLabels
+//@   after call unguaranteeCopiedLabels#2 set g8 = result.GuaranteedLabels
 //@   after call walkNode#4 set r4 = result
 //@   after call walkNode#6 set r6 = result
 //@   after call walkNode#8 set r8 = result
 //@   after call walkNode#10 set r10 = result
+//@   at call calculateStaticReturn#1 assert !(n.ReturnBool && isCmp(n.Op))
+//@   at call calculateStaticReturn#2 assert !(n.ReturnBool && isCmp(n.Op))
+//@   at call canJoin#1 assert sameLists(arg0, r4[iter3-1]) && arg0.FixedLabels == r4[iter3-1].FixedLabels
+//@   at call canJoin#2 assert sameLists(arg0, r6[iter6-1]) && arg0.FixedLabels == r6[iter6-1].FixedLabels
+//@   at call canJoin#3 assert sameLists(arg0, r8[iter8-1]) && arg0.FixedLabels == r8[iter8-1].FixedLabels
+//@   at call canJoin#4 assert sameLists(arg0, r10[iter10-1]) && arg0.FixedLabels == r10[iter10-1].FixedLabels
 //@   loop 3 assumed invariant forall j int :: iter3 <= j && j < len(r4) ==> wfS(r4[j]) && vmSep(r4[j], n.VectorMatching)
 //@   loop 3 invariant 0 <= iter3 && iter3 <= len(r4) && n == old(n)
 //@   at call append#3 assert n.VectorMatching.On ==> s.FixedLabels && (forall x string :: canHave(s, x) ==> in(n.VectorMatching.MatchingLabels, x))
@@ -274,8 +292,11 @@ package utils
 //@   at call append#3 assert !n.VectorMatching.On ==> (forall x string :: !in(n.VectorMatching.MatchingLabels, x) && canHave(r4[iter3-1], x) ==> canHave(s, x))
 //@   at call append#3 assert subset(s.GuaranteedLabels, r4[iter3-1].GuaranteedLabels)
 //@   loop 6 assumed invariant forall j int :: iter6 <= j && j < len(r6) ==> wfS(r6[j]) && vmSep(r6[j], n.VectorMatching)
+//@   loop 6 assumed invariant forall j int, k int :: iter6 <= j && j < len(r6) && 0 <= k && k < len(lhs) ==> sep(r6[j].IncludedLabels, lhs[k].GuaranteedLabels)
 //@   loop 6 invariant 0 <= iter6 && iter6 <= len(r6) && n == old(n)
-//@   at call append#5 assert s.FixedLabels == r6[iter6-1].FixedLabels && s.GuaranteedLabels == r6[iter6-1].GuaranteedLabels
+//@   at call append#5 assert s.FixedLabels == r6[iter6-1].FixedLabels && subset(s.GuaranteedLabels, r6[iter6-1].GuaranteedLabels)
+//@   at call unguaranteeCopiedLabels#1 assert arg1 == lhs && arg2 == n.VectorMatching.Include
+//@   at call append#5 assert s.GuaranteedLabels == g6
 //@   at call append#5 assert subset(s.ExcludedLabels, r6[iter6-1].ExcludedLabels)
 //@   at call append#5 assert disjoint(s.ExcludedLabels, n.VectorMatching.Include)
 //@   at call append#5 assert subset(r6[iter6-1].IncludedLabels, s.IncludedLabels)
@@ -284,8 +305,11 @@ package utils
 //@   at call append#5 assert n.VectorMatching.On ==> (forall x string :: in(n.VectorMatching.MatchingLabels, x) ==> canHave(s, x))
 //@   at call append#5 assert forall x string :: canHave(r6[iter6-1], x) ==> canHave(s, x)
 //@   loop 8 assumed invariant forall j int :: iter8 <= j && j < len(r8) ==> wfS(r8[j]) && vmSep(r8[j], n.VectorMatching)
+//@   loop 8 assumed invariant forall j int, k int :: iter8 <= j && j < len(r8) && 0 <= k && k < len(rhs) ==> sep(r8[j].IncludedLabels, rhs[k].GuaranteedLabels)
 //@   loop 8 invariant 0 <= iter8 && iter8 <= len(r8) && n == old(n)
-//@   at call append#7 assert s.FixedLabels == r8[iter8-1].FixedLabels && s.GuaranteedLabels == r8[iter8-1].GuaranteedLabels
+//@   at call append#7 assert s.FixedLabels == r8[iter8-1].FixedLabels && subset(s.GuaranteedLabels, r8[iter8-1].GuaranteedLabels)
+//@   at call unguaranteeCopiedLabels#2 assert arg1 == rhs && arg2 == n.VectorMatching.Include
+//@   at call append#7 assert s.GuaranteedLabels == g8
 //@   at call append#7 assert subset(s.ExcludedLabels, r8[iter8-1].ExcludedLabels)
 //@   at call append#7 assert disjoint(s.ExcludedLabels, n.VectorMatching.Include)
 //@   at call append#7 assert subset(r8[iter8-1].IncludedLabels, s.IncludedLabels)
@@ -325,3 +349,25 @@ package utils
 //@   ensures wfS(result)
 //@   ensures (n.Func.Name == "label_replace" || n.Func.Name == "label_join") && litOK ==> canHave(result, lit) && in(result.GuaranteedLabels, lit)
 //@   ensures !restricting(n.Func.Name) ==> (forall x string :: canHave(s, x) ==> canHave(result, x))
+
+// group_left(I) / group_right(I) copy the labels of I from the "one" side (and drop them when it lacks them): such a
+// label stays guaranteed only if every source of the "one" side guarantees it.
+//@ spec func allG(srcs []Source, x string) bool = forall j int :: 0 <= j && j < len(srcs) ==> in(srcs[j].GuaranteedLabels, x)
+//@ func unguaranteeCopiedLabels [C12]
+//@   option elemlinks
+//@   requires wfS(s)
+//@   ensures result.FixedLabels == s.FixedLabels && result.IncludedLabels == s.IncludedLabels && result.ExcludedLabels == s.ExcludedLabels
+//@   ensures nodup(result.GuaranteedLabels) && derived(result.GuaranteedLabels, s.GuaranteedLabels) && modifiesNone(names)
+//@   ensures subset(result.GuaranteedLabels, s.GuaranteedLabels)
+//@   ensures forall i int :: 0 <= i && i < len(result.GuaranteedLabels) && in(names, result.GuaranteedLabels[i]) ==> allG(oneSide, result.GuaranteedLabels[i])
+//@   ensures forall k int :: 0 <= k && k < len(s.GuaranteedLabels) && !in(names, s.GuaranteedLabels[k]) ==> in(result.GuaranteedLabels, s.GuaranteedLabels[k])
+//@   loop 1 invariant 0 <= iter1 && iter1 <= len(names) && modifiesNone(names) && names == old(names) && oneSide == old(oneSide)
+//@   loop 1 invariant s.FixedLabels == old(s.FixedLabels) && s.IncludedLabels == old(s.IncludedLabels) && s.ExcludedLabels == old(s.ExcludedLabels)
+//@   loop 1 invariant nodup(s.GuaranteedLabels) && derived(s.GuaranteedLabels, old(s.GuaranteedLabels)) && subset(s.GuaranteedLabels, old(s.GuaranteedLabels))
+//@   loop 1 invariant forall i int, m int :: 0 <= i && i < len(s.GuaranteedLabels) && 0 <= m && m < iter1 && names[m] == s.GuaranteedLabels[i] ==> allG(oneSide, s.GuaranteedLabels[i])
+//@   loop 1 invariant forall k int :: 0 <= k && k < old(len(s.GuaranteedLabels)) && !in(names, old(s.GuaranteedLabels)[k]) ==> in(s.GuaranteedLabels, old(s.GuaranteedLabels)[k])
+//@ func allGuarantee [C12]
+//@   pure
+//@   ensures result ==> allG(srcs, name)
+//@   ensures !result ==> (exists j int :: 0 <= j && j < len(srcs) && !in(srcs[j].GuaranteedLabels, name))
+//@   loop 1 invariant 0 <= iter1 && iter1 <= len(srcs) && (forall j int :: 0 <= j && j < iter1 ==> in(srcs[j].GuaranteedLabels, name))
